@@ -13,6 +13,8 @@ use std::sync::atomic::{AtomicBool, Ordering};
 use std::time::Instant;
 
 pub static QUIET_ALL_PANICS: AtomicBool = AtomicBool::new(false);
+/// a VIOLATION line has already been printed by this process (the watchdog must not turn the exit code into 'inconclusive')
+pub static VIOLATION_PRINTED: AtomicBool = AtomicBool::new(false);
 
 fn verif_dir() -> PathBuf {
     std::env::var("VERIF_DIR").map(PathBuf::from).unwrap_or_else(|_| PathBuf::from("/verif"))
@@ -33,7 +35,7 @@ fn start_watchdog(limit_s: u64) {
             if now == last { idle += 5; } else { idle = 0; last = now; }
             if idle >= limit_s {
                 println!("INCONCLUSIVE: watchdog -- no case completed for {limit_s} s (hang inside a case); this is not a violation");
-                std::process::exit(2);
+                std::process::exit(if VIOLATION_PRINTED.load(Ordering::Relaxed) { 1 } else { 2 });
             }
         }
     });
@@ -68,9 +70,12 @@ fn registry() -> Vec<PartEntry> {
         part!("C04", uni::C04Multi),
         part!("C05", life::C05Sched),
         part!("C07", life::C07CancelAll),
+        part!("C13", alloc::C13Pool),
+        part!("C14", alloc::C14Handles),
         part!("C16", life::C16Retry),
         part!("C17", life::C17Churn),
         part!("C18", containers::Standalone),
+        part!("C19", alloc::C19Average),
         part!("C20", life::C20Suspended),
     ]
 }
@@ -110,6 +115,7 @@ fn run_committed_replays(id: &str, cfg: &Cfg, reg: &[PartEntry]) -> (u32, i32) {
                     } else {
                         println!("VIOLATION property={id} replay={}", path.display());
                         println!("  signature={signature}\n  {detail}");
+                        VIOLATION_PRINTED.store(true, Ordering::Relaxed);
                         exit = 1;
                     }
                 },
